@@ -153,3 +153,69 @@ def check_cic(ctx, rule):
 
     ctx.paths(rule, cic, [("susp", "await $X")], lambda st, e, c: True if not c.is_exc else st, False, at_exit_s2,
               instance="A3: no suspension on the normal-return path")
+
+
+def restart_walker(ctx, rule):
+    """the restart helper(s): delegation to the parent, the walk itself (cancelled before shield), and delivery restarted in the
+    closest cancelled scope whose callback has died down"""
+    has_new = any(f.module.endswith(A) for f in ctx.repo.funcs.get("CancelScope._restart_cancellation", []))
+    rp = ctx.fn("CancelScope._restart_cancellation_in_parent", A)
+    walker = ctx.fn("CancelScope._restart_cancellation", A) if has_new else rp
+    if has_new:
+        s = ctx.sites(rp, "self._parent_scope._restart_cancellation()")
+        ok = len(s) == 1
+        if ok:
+            fa = ctx.facts_at(rp, s[0][0])
+            ok = bool(fa) and all(F("self._parent_scope is not None") in x for x in fa)
+        ctx.ob(rule, rp, "_restart_cancellation_in_parent delegates to the parent's restart", ok,
+               detail="" if ok else "no `self._parent_scope._restart_cancellation()` under `self._parent_scope is not None`", by=("delegation",))
+    v = check_walker(ctx, rule, walker)
+    if v:
+        ds = ctx.sites(walker, f"{v}._deliver_cancellation({v})")
+        if ctx.need(rule, walker, "restart delivers from the closest cancelled scope", len(ds), 1):
+            ctx.require_at(rule, walker, ds[0][0], [[f"{v}._cancel_called", f"{v}._cancel_handle is None"]],
+                           instance="delivery (re)started only in a cancelled scope whose callback is not already pending")
+
+        def at_exit_w(kind, st, facts):
+            if kind == "return" and (f"{v}._cancel_called", True) in facts and (f"{v}._cancel_handle is None", False) not in facts and not st:
+                return "a cancelled scope without a pending delivery callback is found but delivery is not restarted"
+            return None
+
+        ctx.paths(rule, walker, [("deliver", f"{v}._deliver_cancellation({v})")], lambda st, e, c: True if not c.is_exc else st, False, at_exit_w,
+                  instance="restart reaches delivery")
+
+
+def scope_joiners(ctx, quals):
+    out = []
+    for f, rel, st, kind, val_, n in ctx.writers("_tasks", [A]):
+        if f is not None and kind == "call:add" and f.qual in quals and not (f.cls == "TaskGroup" and ast.unparse(n.value) == "self"):
+            out.append((f, st, n))
+    return out
+
+
+def join_restarts(ctx, rule, quals, minimum):
+    """a task that joins a scope which may already be cancelled restarts that scope's delivery before the function suspends or returns"""
+    joiners = scope_joiners(ctx, quals)
+    ctx.floor(rule, "sites where a new task joins a scope", len(joiners), minimum)
+    for f, st, n in joiners:
+        recv = ast.unparse(n.value)
+
+        def step_j(st_, e, c, recv=recv):
+            if c.is_exc:
+                return st_
+            if e == "add":
+                return "added"
+            if e == "restart" and st_ == "added":
+                return "restarted"
+            if e == "susp" and st_ == "added":
+                return Bad("a task is added to a scope and the function suspends before restarting that scope's cancellation delivery")
+            return st_
+
+        def at_exit_j(kind, st_, facts):
+            if kind == "return" and st_ == "added":
+                return ("a task joins a scope that may already be cancelled and delivery is not restarted: if the delivery callback has died "
+                        "down (host parked in a shielded inner scope) the new task is never cancelled")
+            return None
+
+        ctx.paths(rule, f, [("add", f"{recv}._tasks.add($T)"), ("restart", f"{recv}._restart_cancellation()"),
+                               ("susp", ["await $X"])], step_j, None, at_exit_j, instance=f"join of {recv} restarts delivery")
